@@ -164,13 +164,15 @@ private:
     static void apply_householder_left(const Vector2s& ess, const Scalar& tau, Scalar* x, Index ncol, Index stride)
     {
         const Scalar v1 = ess.coeff(0), v2 = ess.coeff(1);
-        const Scalar* const x_end = x + ncol * stride;
-        for (; x < x_end; x += stride)
+        // Address each column from its index: x + ncol * stride lies beyond the end of
+        // the matrix unless x points to the first row, so that pointer is never formed
+        for (Index j = 0; j < ncol; j++)
         {
-            const Scalar tvx = tau * (x[0] + v1 * x[1] + v2 * x[2]);
-            x[0] -= tvx;
-            x[1] -= tvx * v1;
-            x[2] -= tvx * v2;
+            Scalar* xj = x + j * stride;
+            const Scalar tvx = tau * (xj[0] + v1 * xj[1] + v2 * xj[2]);
+            xj[0] -= tvx;
+            xj[1] -= tvx * v1;
+            xj[2] -= tvx * v2;
         }
     }
 
